@@ -78,7 +78,7 @@ def string_directive(draw, charset, dirty):
                 n = draw(st.sampled_from([-2, -1, 256, 257, 255, 0]))
             else:
                 n = draw(st.one_of(st.sampled_from([0, 1, 127, 128, 254, 255]), st.integers(0, 255)))
-            chunks.append(["n", n, draw(st.booleans())])
+            chunks.append(["n", n, draw(st.booleans()), draw(st.integers(0, 2)) == 0])
         else:
             q = draw(st.sampled_from(['"', "'", "/"]))
             atoms = draw(st.lists(atom_st(q, charset, dirty), min_size=0, max_size=8))
@@ -242,7 +242,11 @@ def build(case):
             for ch in it["chunks"]:
                 if ch[0] == "n":
                     n = ch[1]
-                    parts.append("<" + (f"{n}." if ch[2] else (("-" if n < 0 else "") + f"{abs(n):o}")) + ">")
+                    if len(ch) > 3 and ch[3] and 0 <= n <= 255:
+                        parts.append("<" + render.expr(spell(n, 2), style) + ">")      # through a symbol defined behind the string
+                        labels.add("chunk-forward-symbol")
+                    else:
+                        parts.append("<" + (f"{n}." if ch[2] else (("-" if n < 0 else "") + f"{abs(n):o}")) + ">")
                     if 0 <= n <= 255:
                         data.append(n)
                     else:
